@@ -381,11 +381,12 @@ def real_fit_schedule(run: Run, thorough: bool):
     import torch
     from harness import synth
     from leaspy.algo.fit.mcmc_saem import TensorMcmcSaemAlgorithm
-    configs = [("logistic", 8, 3, 0.8), ("linear", 7, 0, 1.0)]
+    configs = [("logistic", 8, 3, 0.8, False), ("linear", 7, 0, 1.0, False), ("logistic", 7, 2, 0.7, True)]
     if thorough:
-        configs += [("logistic", 12, 12, 0.6), ("shared_speed_logistic", 9, 4, 0.51), ("logistic", 10, 9, 0.8)]
+        configs += [("logistic", 12, 12, 0.6, False), ("shared_speed_logistic", 9, 4, 0.51, False), ("logistic", 10, 9, 0.8, False),
+                    ("linear", 9, 0, 0.9, True)]
     orig = TensorMcmcSaemAlgorithm._maximization_step
-    for kind, n_iter, nb, power in configs:
+    for kind, n_iter, nb, power, reuse in configs:
         log = []
 
         def wrapped(self, model, state, _orig=orig, _log=log):
@@ -414,10 +415,32 @@ def real_fit_schedule(run: Run, thorough: bool):
                              memoryless=self.sufficient_statistics is seen["s"]))
         TensorMcmcSaemAlgorithm._maximization_step = wrapped
         try:
-            synth.fit(kind, n_iter=n_iter, seed=run.seed % 1000, n_burn_in_iter=nb, n_burn_in_iter_frac=None, burn_in_step_power=power)
+            if reuse:
+                # ONE algorithm object, two runs (algorithm_factory(settings); algo.run(model, dataset) twice): the schedule of the second
+                # run must restart from iteration 1 — nothing of the first run (step counter, statistics) may be left in the object
+                from leaspy.algo import AlgorithmSettings, algorithm_factory
+                from leaspy.io.data import Dataset
+                import warnings as _w
+                with _w.catch_warnings():
+                    _w.simplefilter("ignore")
+                    import io as _io, contextlib as _cl
+                    with _cl.redirect_stdout(_io.StringIO()):
+                        df = synth.make_df(n_ind=10, n_feat=2, seed=run.seed % 1000, kind=kind)
+                        st = AlgorithmSettings("mcmc_saem", n_iter=n_iter, seed=run.seed % 1000, n_burn_in_iter=nb, n_burn_in_iter_frac=None,
+                                               burn_in_step_power=power, progress_bar=False)
+                        algo = algorithm_factory(st)
+                        for rep in range(2):
+                            model = synth.make_model(kind, 2)
+                            ds = Dataset(synth.make_data(df, kind))
+                            model.initialize(ds)
+                            algo.run(model, ds)
+                            if rep == 0:
+                                del log[:]          # keep the records of the SECOND run only
+            else:
+                synth.fit(kind, n_iter=n_iter, seed=run.seed % 1000, n_burn_in_iter=nb, n_burn_in_iter_frac=None, burn_in_step_power=power)
         except Exception as e:
             run.fail(f"real-fit-raises:{type(e).__name__}", f"fit raised {type(e).__name__}: {e}",
-                     dict(kind=kind, n_iter=n_iter, n_burn_in_iter=nb, burn_in_step_power=power))
+                     dict(kind=kind, n_iter=n_iter, n_burn_in_iter=nb, burn_in_step_power=power, same_algorithm_object_run_twice=reuse))
             continue
         finally:
             TensorMcmcSaemAlgorithm._maximization_step = orig
@@ -438,8 +461,9 @@ def real_fit_schedule(run: Run, thorough: bool):
                     err = (S.double() - want)[fin].abs().max().item() if fin.any() else 0.0
                     scale = 1 + want[fin].abs().max().item() if fin.any() else 1.0
                     if err > 1e-4 * scale:
-                        run.fail("convex-update", f"real fit: S_k[{name}] off the recurrence by {err:.3g}",
-                                 dict(kind=kind, n_iter=n_iter, n_burn_in_iter=nb, k=k, stat=name))
+                        run.fail("convex-update" + (":second-run-of-one-algorithm-object" if reuse else ""),
+                                 f"real fit: S_k[{name}] off the recurrence by {err:.3g}",
+                                 dict(kind=kind, n_iter=n_iter, n_burn_in_iter=nb, k=k, stat=name, same_algorithm_object_run_twice=reuse))
         run.sample(dict(kind="real-fit", model=kind, n_iter=n_iter, n_burn_in_iter=nb, power=power,
                         branches=["M" if r["memoryless"] else "C" for r in log]))
 
